@@ -136,6 +136,25 @@ func unfoldUProc(to *UProc) (interface{}, func(*UProc, interface{}) error) {
 
 var userUnfolders = gotype.Unfolders(unfoldUStr, unfoldUI64, unfoldUPt, unfoldUObj, unfoldUProc)
 
+// Options are values: using the shared option values of the harness together with OTHER options in one call must
+// not change what the shared values mean afterwards.  Done once per process, before any case runs: an iterator and an
+// unfolder are created with (shared option, an option that overrides one of its entries and adds another).
+func init() {
+	altRegT := func(in *RegT, v structform.ExtVisitor) error { return v.OnString("overridden") }
+	altZeroT := func(in *ZeroT, v structform.ExtVisitor) error { return v.OnString("added") }
+	if it, err := gotype.NewIterator(&Recorder{}, userFolders, gotype.Folders(altRegT, altZeroT)); err == nil {
+		it.Fold([]interface{}{&RegT{A: 1}, &ZeroT{A: 1}})
+	}
+	altUStr := func(to *UStr, s string) error { to.V = "overridden"; return nil }
+	altZero := func(to *ZeroT, s string) error { to.A = 7; return nil }
+	if un, err := gotype.NewUnfolder(nil, userUnfolders, gotype.Unfolders(altUStr, altZero)); err == nil {
+		var x UStr
+		if un.SetTarget(&x) == nil {
+			un.OnString("s")
+		}
+	}
+}
+
 func init() {
 	i64 := TD{K: "int64"}
 	for id, x := range map[string]struct {
